@@ -222,9 +222,11 @@ func (l *commitLog) Append(msgs []*Message) ([]int64, error) {
 	if l.IsReadonly() {
 		return nil, ErrCommitLogReadonly
 	}
+	verifGate("append.before_split_check")
 	if _, err := l.checkAndPerformSplit(); err != nil {
 		return nil, err
 	}
+	verifGate("append.before_write")
 	var (
 		segment          = l.activeSegment()
 		basePosition     = segment.Position()
@@ -649,6 +651,7 @@ func (l *commitLog) SetReadonly(readonly bool) {
 	}
 	atomic.StoreInt32(&l.readonly, value)
 	if readonly {
+		verifGate("setreadonly.before_notify")
 		l.mu.Lock()
 		l.notifyReadonly()
 		l.mu.Unlock()
